@@ -53,6 +53,65 @@ func runC07(c *Ctx) {
 	}
 	methods := P.Methods("queue", "Queue")
 	ruleSliceLen(c, m)
+	// Each and Slice visit as many elements as the queue holds: the loop that reads the buffer runs up to the count
+	// field (range q.n / i < q.n), not up to another field
+	c.rule("R-WALK-COUNT", 0, "the loop of Queue.Each / Queue.Slice that reads the buffer is bounded by the element count")
+	for _, name := range []string{"Each", "Slice"} {
+		fn := P.Func("queue", "Queue", name)
+		if fn == nil {
+			continue
+		}
+		k := 0
+		for _, h := range fn.Blocks {
+			isH := false
+			for _, p := range h.Preds {
+				if h.Dominates(p) {
+					isH = true
+				}
+			}
+			if !isH {
+				continue
+			}
+			// does the loop read the buffer?  and where is its exit test (the header, or the latch of a rotated loop)
+			reads := false
+			var iff *ssa.If
+			lb := loopBlocks(h)
+			for b := range lb {
+				for _, in := range b.Instrs {
+					if ia, ok := in.(*ssa.IndexAddr); ok && m.isLoad(ia.X, m.vsF) {
+						reads = true
+					}
+				}
+				if i2, ok := b.Instrs[len(b.Instrs)-1].(*ssa.If); ok && (!lb[b.Succs[0]] || !lb[b.Succs[1]]) {
+					if bo2, ok := i2.Cond.(*ssa.BinOp); ok {
+						if _, f := loadedField(bo2.X); f != nil {
+							iff = i2
+						}
+						if _, f := loadedField(bo2.Y); f != nil {
+							iff = i2
+						}
+					}
+				}
+			}
+			if !reads || iff == nil {
+				continue
+			}
+			bo := iff.Cond.(*ssa.BinOp)
+			var bound ssa.Value
+			for _, v := range []ssa.Value{bo.X, bo.Y} {
+				if _, f := loadedField(v); f != nil {
+					bound = v
+				}
+			}
+			if bound == nil {
+				continue
+			}
+			k++
+			c.sawFn(fnName(fn))
+			_, f := loadedField(bound)
+			c.judge(sameField(f, m.nF), "R-WALK-COUNT", fmt.Sprintf("%s:walk #%d", fnName(fn), k), bo.Pos(), "bounded by the element count", fmt.Sprintf("%s visits the buffer in a loop bounded by .%s, not by the element count .%s: it visits too few elements, or runs past the ones the queue holds", name, f.Name(), m.nF.Name()))
+		}
+	}
 	// Push puts its argument in front of the head: whatever the path (room left, or grown — where the append that
 	// triggers the reallocation leaves the value at the BACK), an explicit store of the argument into a buffer cell
 	// is passed before the return
